@@ -5,8 +5,8 @@
 /* BOUNDED unit (label B): loop 3 of p?gstrf_panel_bmod is a do-while.  CBMC's static ("legacy") contract instrumentation has no loop
  * contracts for do-while loops and refuses an uncontracted loop inside a contracted one, and it refuses to enforce a function contract
  * on a function in which loops remain; the dynamic-frames instrumentation takes all six loop contracts (unit panel_bmod_pc, thorough
- * tier: > 3 min of symbolic execution).  Here: loops 1, 4, 5, 6 are closed by their loop contracts (spec), loops 2 (climb) and 3
- * (do-while) are unwound with unwinding assertions for a busy range of at most NBUSY columns; the contract of defs.h is assumed
+ * tier: > 3 min of symbolic execution).  Here: loops 1, 5, 6 are closed by their loop contracts (spec), loops 2 (climb), 3
+ * (do-while) and 4 (panel columns, w <= W) are unwound with unwinding assertions for a busy range of at most NBUSY columns; the contract of defs.h is assumed
  * (REQ_*) and asserted (ENS_*) around the call of the real routine. */
 #define REQ(l) __CPROVER_assume(REQ_##l)
 #define ENS(l) __CPROVER_assert(ENS_##l, "ensures " #l)
